@@ -65,7 +65,9 @@ pub struct Case {
 fn kind_strategy() -> BoxedStrategy<Kind> {
     prop_oneof![
         2 => Just(Kind::Honest),
-        6 => proptest::collection::vec((any::<u16>(), fe_any()), 1..3)
+        // witness overrides; a quarter of the positions are the built-in ZERO
+        // and ONE witnesses (indices 0 and 1), which sit on every unused wire
+        6 => proptest::collection::vec((prop_oneof![3 => any::<u16>(), 1 => Just(0u16), 1 => Just(1u16)], fe_any()), 1..3)
             .prop_map(|edits| Kind::Override { edits }),
         12 => (
             0u8..5,
@@ -633,7 +635,12 @@ fn materialise(c: &Case) -> Result<(Vec<Op>, Vec<Op>, Vec<(usize, F)>, String), 
                 .map_err(|e| Fail::new("honest-build-error", format!("{e:?}")))?;
             let nw = comp.verif_witness_count();
             for (i, v) in edits {
-                overrides.push((pick(*i, nw), v.0));
+                // 0 and 1 name the built-in constant witnesses literally
+                let idx = if *i <= 1 { *i as usize } else { pick(*i, nw) };
+                overrides.push((idx, v.0));
+                if idx <= 1 {
+                    class.push_str("override of a built-in constant witness ");
+                }
             }
             class.push_str("override");
         }
